@@ -1,21 +1,258 @@
-import ScryerModel.Model.ArithMixed
+import ScryerModel.Proofs.ArithMixed
 /-!
 # C02 — Float and mixed-type evaluation follows IEEE-754 with ISO checks
-(work in progress: see notes/design/C02.md)
+
+Model: `Model/ArithFloat.lean` (binary64 as bit patterns; every finite double is `scaled / 2^1074`;
+exact `rne`; IEEE `+ * / sqrt trunc` defined through `rne` on the exact result) and
+`Model/ArithMixed.lean` (the evaluator of `arithmetic.rs` / `arithmetic_ops.rs`, branch by branch, over
+`Fixnum/Integer | Rational | Float`; the transcendental functions are the parameter `Cfg.libm`).
+
+Reading the statements: for a double `x`, `x.scaled : ℕ` is `|x|·2^1074`, `x.scaledInt : ℤ` is `x·2^1074`,
+`P = 2^1074`. So "`r` is at least as close to `n/d` as `y`" reads
+`|r.scaled·d − n·P| ≤ |y.scaled·d − n·P|` (both sides multiplied by `d·P > 0`).
+`Int.fdiv` is floor division, `Int.tdiv` truncating division.
+
+All theorems hold for every `libm` (partial or total) and every configuration unless `pinnedRndI = false`
+(the repaired `rnd_i`, finding C02-1) is assumed explicitly.
 -/
 namespace Scryer.ArithMixed
 open Scryer.ArithFloat
+open Scryer.Arith (Num)
 
-/-- `classify_float` lets exactly the finite doubles through. -/
-theorem C02_classify_ok_iff (f r : F64) : classify f = .ok r ↔ (r = f ∧ f.isFinite = true) := by
-  unfold classify F64.isNaN F64.isInf F64.isFinite
-  by_cases h1 : INF_MAG < f.mag
-  · simp [h1]; omega
-  · by_cases h2 : f.mag = INF_MAG
-    · simp [h2]
-    · simp [h1, h2]
-      constructor
-      · intro h; exact ⟨h.symm, by omega⟩
-      · intro h; exact h.1.symm
+/-! ## 1. A successful evaluation never yields NaN or an infinity -/
+
+/-- **Finite results.** For every libm and every expression whose float literals are finite doubles,
+    a successful evaluation returns an integer, a rational or a *finite* double. -/
+theorem C02_success_is_finite (c : Cfg) (e : Expr) (he : e.finLits) (v : Number)
+    (h : eval c e = .ok v) : v.fin :=
+  eval_fin c e he v h
+
+/-- `classify_float`: exactly the finite doubles pass; an infinity is `float_overflow`, a NaN `undefined`. -/
+theorem C02_classify_table (f : F64) :
+    (classify f = .ok f ↔ f.isFinite = true) ∧
+    (classify f = .error .floatOverflow ↔ f.isInf = true) ∧
+    (classify f = .error .undefined ↔ f.isNaN = true) := by
+  refine ⟨⟨fun h => (classify_ok h).2, classify_fin⟩, classify_overflow_iff f, classify_undefined_iff f⟩
+
+/-! ## 2. The exactly rounded core -/
+
+/-- **Nearest.** When `rne` of `n/d` is finite, no double `y` (any bit pattern) is closer to `n/d`. -/
+theorem C02_rne_nearest (neg : Bool) (n d : Nat) (hd : 0 < d)
+    (hfin : (rne neg n d).isFinite = true) (y : F64) :
+    |(((rne neg n d).scaled * d : Nat) : Int) - ((n * P : Nat) : Int)| ≤
+    |((y.scaled * d : Nat) : Int) - ((n * P : Nat) : Int)| :=
+  rne_nearest neg n d hd (rne_not_overflow_of_finite hfin) y
+
+/-- **Half an ulp.** The error of a finite rounding is at most half a unit of the rounding grid
+    `2^(u-1074)`, `u = unitExp ⌊n·P/d⌋`. -/
+theorem C02_rne_half_ulp (neg : Bool) (n d : Nat) (hd : 0 < d) (hfin : (rne neg n d).isFinite = true) :
+    2 * |(((rne neg n d).scaled * d : Nat) : Int) - ((n * P : Nat) : Int)| ≤
+      ((d * 2 ^ unitExp (n * P / d) : Nat) : Int) :=
+  rne_half_ulp neg n d hd (rne_not_overflow_of_finite hfin)
+
+/-- **Ties to even.** If `N/D` is exactly halfway between two grid points, the even one is chosen. -/
+theorem C02_round_tie_even (N D : Nat) (hD : 0 < D)
+    (h : 2 * (roundHalfEven N D * D) = 2 * N + D ∨ 2 * N = 2 * (roundHalfEven N D * D) + D) :
+    roundHalfEven N D % 2 = 0 :=
+  rhe_tie_even N D hD h
+
+/-- **Exact on representable values.** Rounding the exact value of a finite double returns it
+    (sign of zero included). -/
+theorem C02_rne_exact (x : F64) (hwf : x.wf) (hfin : x.isFinite = true) :
+    rne x.sign x.scaled P = x :=
+  rne_exact x hwf (of_decide_eq_true hfin)
+
+/-- `rne` yields a finite double or an infinity (overflow), never a NaN, with the requested sign. -/
+theorem C02_rne_sign_nan (neg : Bool) (n d : Nat) :
+    (rne neg n d).isNaN = false ∧ (rne neg n d).sign = neg :=
+  ⟨rne_not_nan neg n d, rne_sign neg n d⟩
+
+/-- **int → float** (`float/1`, promotion in mixed `+ - * /`): `classify` of the correctly rounded value;
+    hence `float_overflow` exactly when the nearest double is an infinity. -/
+theorem C02_int_to_float (n : Num) :
+    float (.int n) = classify (rne (decide (n.val < 0)) n.val.natAbs 1) := rfl
+
+/-- **rational → float**. -/
+theorem C02_rat_to_float (n : Int) (d : Nat) :
+    float (.rat n d) = classify (rne (decide (n < 0)) n.natAbs d) := rfl
+
+/-- **Addition is correctly rounded.** For finite operands with a non-zero exact sum `s`, a finite
+    `x + y` is a double nearest to `s`. -/
+theorem C02_add_correctly_rounded (x y : F64) (hx : x.isFinite = true) (hy : y.isFinite = true)
+    (hs : x.scaledInt + y.scaledInt ≠ 0) (hr : (addF x y).isFinite = true) (z : F64) :
+    |(((addF x y).scaled * P : Nat) : Int) - (((x.scaledInt + y.scaledInt).natAbs * P : Nat) : Int)| ≤
+    |((z.scaled * P : Nat) : Int) - (((x.scaledInt + y.scaledInt).natAbs * P : Nat) : Int)| := by
+  have e : addF x y = rne (decide (x.scaledInt + y.scaledInt < 0)) (x.scaledInt + y.scaledInt).natAbs P := by
+    rcases cls_trichotomy x with ⟨_, _, h3⟩ | ⟨_, _, h3⟩ | ⟨a1, a2, _⟩
+    · rw [h3] at hx; cases hx
+    · rw [h3] at hx; cases hx
+    rcases cls_trichotomy y with ⟨_, _, h3⟩ | ⟨_, _, h3⟩ | ⟨b1, b2, _⟩
+    · rw [h3] at hy; cases hy
+    · rw [h3] at hy; cases hy
+    unfold addF
+    simp only [a1, a2, b1, b2, Bool.or_self, Bool.false_eq_true, if_false, hs]
+  rw [e] at hr ⊢
+  exact C02_rne_nearest _ _ P P_pos hr z
+
+/-- **Division is correctly rounded.** For finite `x` and finite non-zero `y`, a finite `x / y` is a
+    double nearest to the exact quotient (`|r·Y − X| ≤ |z·Y − X|` in units of 2^-1074). -/
+theorem C02_div_correctly_rounded (x y : F64) (hx : x.isFinite = true) (hy : y.isFinite = true)
+    (hy0 : y.isZero = false) (hr : (divF x y).isFinite = true) (z : F64) :
+    |(((divF x y).scaled * y.scaled : Nat) : Int) - ((x.scaled * P : Nat) : Int)| ≤
+    |((z.scaled * y.scaled : Nat) : Int) - ((x.scaled * P : Nat) : Int)| := by
+  have hpos : 0 < y.scaled := by
+    unfold F64.isZero at hy0
+    have hm : y.mag ≠ 0 := of_decide_eq_false hy0
+    unfold F64.scaled F64.sig
+    have : 0 < 2 ^ y.ulpExp := by positivity
+    split
+    · exact Nat.mul_pos (by omega) this
+    · exact Nat.mul_pos (by unfold HIDDEN; positivity) this
+  have e : divF x y = rne (x.sign != y.sign) x.scaled y.scaled := by
+    rcases cls_trichotomy x with ⟨_, _, h3⟩ | ⟨_, _, h3⟩ | ⟨a1, a2, _⟩
+    · rw [h3] at hx; cases hx
+    · rw [h3] at hx; cases hx
+    rcases cls_trichotomy y with ⟨_, _, h3⟩ | ⟨_, _, h3⟩ | ⟨b1, b2, _⟩
+    · rw [h3] at hy; cases hy
+    · rw [h3] at hy; cases hy
+    unfold divF
+    simp only [a1, a2, b1, b2, hy0, Bool.or_self, Bool.false_eq_true, if_false]
+  rw [e] at hr ⊢
+  exact C02_rne_nearest _ _ _ hpos hr z
+
+/-! ## 3. Error table -/
+
+/-- **Float functions** (`sin cos tan log exp asin acos atan`, via `unary_float_fn_template`): with libm
+    value `r` at the converted argument, the outcome is: argument conversion overflow → `float_overflow`;
+    `r` NaN (e.g. `log` of a negative number, `asin 2`) → `undefined`; `r = ±inf` (e.g. `exp 1000`,
+    `log 0.0`) → `float_overflow`; otherwise `r`. -/
+theorem C02_float_fn_table (c : Cfg) (op : Fn1) (n : Number) (r : F64)
+    (hl : c.libm.fn1 op (rndF n) = some r) :
+    fn1 c op n =
+      (if (rndF n).isNaN then .error .undefined
+       else if (rndF n).isInf then .error .floatOverflow
+       else if r.isNaN then .error .undefined
+       else if r.isInf then .error .floatOverflow
+       else .ok (.flt r)) :=
+  fn1_table c op n r hl
+
+/-- `sqrt float_integer_part float_fractional_part`: same table around the exact IEEE operation. -/
+theorem C02_exact_fn_table (n : Number) (g : F64 → F64) :
+    template n (fun f => .ok (g f)) =
+      (if (rndF n).isNaN then .error .undefined
+       else if (rndF n).isInf then .error .floatOverflow
+       else if (g (rndF n)).isNaN then .error .undefined
+       else if (g (rndF n)).isInf then .error .floatOverflow
+       else .ok (g (rndF n))) :=
+  template_table n g
+
+/-- **`/`**: a zero divisor — as given, or after conversion to float (a rational that underflows) —
+    is `zero_divisor`; conversion or quotient overflow is `float_overflow`; otherwise the IEEE quotient
+    of the converted operands. -/
+theorem C02_div_table (a b : Number) :
+    div a b =
+      (if b.isZero then .error .zeroDivisor
+       else match resultF a, resultF b with
+         | .error e, _ => .error e
+         | .ok _, .error e => .error e
+         | .ok fa, .ok fb =>
+            if fb.isZero then .error .zeroDivisor
+            else if (divF fa fb).isNaN then .error .undefined
+            else if (divF fa fb).isInf then .error .floatOverflow
+            else .ok (.flt (divF fa fb))) :=
+  div_table a b
+
+/-- `sqrt` of a negative number (−0.0 is not negative) is `undefined`. -/
+theorem C02_sqrt_negative (n : Number) (h : n.isNegative = true) : sqrt n = .error .undefined := by
+  unfold sqrt; rw [if_pos h]
+
+/-- `0 ** negative` and `0.0 ** negative` are `undefined`, whatever libm says. -/
+theorem C02_pow_zero_negative (c : Cfg) (a b : Number) (ha : a.isZero = true)
+    (hb : b.isNegative = true) : pow c a b = .error .undefined := by
+  unfold pow; simp [ha, hb]
+
+/-- `0 ^ negative` is `undefined` for every combination of types. -/
+theorem C02_ipow_zero_negative (c : Cfg) (a b : Number) (ha : a.isZero = true)
+    (hb : b.isNegative = true) : intPow c a b = .error .undefined := by
+  unfold intPow; simp [ha, hb]
+
+/-- `atan2(0, 0)` is `undefined` for every combination of zero representations. -/
+theorem C02_atan2_zero_zero (c : Cfg) (a b : Number) (ha : a.isZero = true) (hb : b.isZero = true) :
+    atan2 c a b = .error .undefined := by
+  unfold atan2; simp [ha, hb]
+
+/-- a float-valued evaluation can only end in one of the evaluation errors (or a type error of `^`):
+    the errors of `classify` are exactly `undefined` and `float_overflow`. -/
+theorem C02_classify_errors {f : F64} {e : Err} (h : classify f = .error e) :
+    e = .undefined ∨ e = .floatOverflow :=
+  classify_error_cases h
+
+/-! ## 4. floor / ceiling / truncate / round give the exact integer -/
+
+/-- **floor of a finite double** is `⌊x⌋` exactly (`Int.fdiv (x·2^1074) 2^1074`), as a well-formed
+    number (fixnum iff −2^55 ≤ ⌊x⌋ < 2^55), and never panics — with the repaired range test. -/
+theorem C02_floor_float (c : Cfg) (hc : c.pinnedRndI = false) (f : F64) (hf : f.isFinite = true) :
+    ∃ r : Num, floor c (.flt f) = .ok (.int r) ∧ r.val = Int.fdiv f.scaledInt (P : Int) ∧ r.wf :=
+  floor_flt c hc f hf
+
+/-- **ceiling of a finite double** is `−⌊−x⌋ = ⌈x⌉` exactly, well-formed. -/
+theorem C02_ceiling_float (c : Cfg) (hc : c.pinnedRndI = false) (f : F64) (hf : f.isFinite = true) :
+    ∃ r : Num, ceiling c (.flt f) = .ok (.int r) ∧
+      r.val = -(Int.fdiv (-f.scaledInt) (P : Int)) ∧ r.wf :=
+  ceiling_flt c hc f hf
+
+/-- **floor / round of a rational** `n/d`: `⌊n/d⌋`, resp. round-half-away-from-zero, exactly and
+    well-formed across the fixnum boundary. -/
+theorem C02_floor_round_rat (c : Cfg) (n : Int) (d : Nat) :
+    floor c (.rat n d) = .ok (.int (ofIntChecked (Int.fdiv n d))) ∧
+    round c (.rat n d) = .ok (.int (ofIntChecked (ratRoundZ n d))) ∧
+    (∀ z, (ofIntChecked z).val = z ∧ (ofIntChecked z).wf) :=
+  ⟨rfl, rfl, fun z => ⟨ofIntChecked_val z, ofIntChecked_wf z⟩⟩
+
+/-- round-half-away-from-zero is the nearest integer, ties away: `2·|r·d − n| ≤ d` and on a tie `|r|`
+    is the larger candidate. -/
+theorem C02_ratRound_spec (n : Int) (d : Nat) (hd : 0 < d) :
+    2 * |ratRoundZ n d * d - n| ≤ d := by
+  unfold ratRoundZ
+  have h1 := Nat.div_add_mod (2 * n.natAbs + d) (2 * d)
+  have h2 := Nat.mod_lt (2 * n.natAbs + d) (show 0 < 2 * d by omega)
+  generalize (2 * n.natAbs + d) / (2 * d) = q at *
+  generalize (2 * n.natAbs + d) % (2 * d) = r at *
+  have h3 : 2 * d * q = 2 * (q * d) := by ring
+  rw [h3] at h1
+  generalize hqd : q * d = qd at *
+  have hcast : ((q : Nat) : Int) * (d : Int) = ((qd : Nat) : Int) := by rw [← hqd]; push_cast; ring
+  by_cases hn : n < 0
+  · simp only [hn, if_true]
+    rw [show -((q : Nat) : Int) * (d : Int) - n = -(((qd : Nat) : Int) + n) by rw [← hcast]; ring]
+    rw [abs_neg]
+    rcases abs_cases (((qd : Nat) : Int) + n) with ⟨h, _⟩ | ⟨h, _⟩ <;> rw [h] <;> omega
+  · simp only [hn, if_false]
+    rw [hcast]
+    rcases abs_cases (((qd : Nat) : Int) - n) with ⟨h, _⟩ | ⟨h, _⟩ <;> rw [h] <;> omega
+
+/-- **Witness for finding C02-1**: with the pinned range test (`f ≤ Fixnum::MAX as f64 = 2^55`) `rnd_i`
+    builds the ill-formed fixnum `2^55`; the repaired test never does (`C02_floor_float`). -/
+theorem C02_pinned_rnd_i_illformed (c : Cfg) (hc : c.pinnedRndI = true) :
+    ¬ (rndIFloat c ((2:Int) ^ 55)).wf := by
+  unfold rndIFloat; rw [hc]; decide
+
+/-! ## Non-vacuity -/
+
+/-- the boundary on both sides: 2^55 − 4 (largest double below) is a fixnum, 2^55 a bignum. -/
+example : rndIFloat { libm := ⟨fun _ _ => none, fun _ _ => none, fun _ _ => none⟩ } ((2:Int)^55 - 4)
+    = .fix ((2:Int)^55 - 4) := by decide
+example : rndIFloat { libm := ⟨fun _ _ => none, fun _ _ => none, fun _ _ => none⟩ } ((2:Int)^55)
+    = .big ((2:Int)^55) := by decide
+example : rndIFloat { libm := ⟨fun _ _ => none, fun _ _ => none, fun _ _ => none⟩ } (-(2:Int)^55)
+    = .fix (-(2:Int)^55) := by decide
+/-- +inf is an overflow, a NaN undefined, MAX passes. -/
+example : classify ⟨0x7ff0000000000000⟩ = .error .floatOverflow := by decide
+example : classify ⟨0xfff8000000000000⟩ = .error .undefined := by decide
+example : classify ⟨0x7fefffffffffffff⟩ = .ok ⟨0x7fefffffffffffff⟩ := by decide
+/-- hypotheses of the table theorems are satisfiable: −0.0 is zero and not negative, −1.0 is negative. -/
+example : (Number.flt ⟨0x8000000000000000⟩).isZero = true ∧
+    (Number.flt ⟨0x8000000000000000⟩).isNegative = false ∧
+    (Number.flt ⟨0xbff0000000000000⟩).isNegative = true := by decide
 
 end Scryer.ArithMixed
